@@ -712,6 +712,9 @@ def report(ctx, case, plans, impl, viol, dis):
 
 
 def describe(case, v):
+    if v[0] >= len(case['conns']):
+        # `case` was minimised (connections dropped): the index belongs to the original case
+        return f"{case['side']} endpoint, {len(case['conns'])} connection(s) after minimisation: {v[1]} - {v[2]}"
     c = case['conns'][v[0]]
     return (f"{case['side']} endpoint, {len(case['conns'])} connection(s); connection {v[0]}: {len(c['frames'])} peer frame(s) "
             f"behind a {len(unhx(c['hs']))}-byte handshake, cuts {c['cuts'][:8]}, ops {[o[:3] for o in c.get('ops', [])][:4]}: {v[1]} - {v[2]}")
